@@ -10,19 +10,23 @@ RULE = (
     "Part 'graphs' (shards = k x ranges of graph masks): every DAG on k = 1..4 (quick) / 1..5 (thorough) labelled features whose edges "
     "respect one topological order (2^(k(k-1)/2) graphs) x a dangling Parent value 'ghost' on none or exactly one feature x every "
     "permutation of the k lines x, when some feature has several parents (quick: only for k <= 3), the Parent values written as one "
-    "comma list or as a repeated key; the five ids contain an escaped comma (%2C), a colon ('autoincrement:n1'), a quote, an underscore "
-    "(SQL wildcard) next to a blank, and an escaped per-cent sign. For each import (real create_db, :memory:) every (feature, level in "
-    "{None,1,2}, featuretype in {None,'exon',('exon','mRNA')}, order_by in {None,'start',('seqid','start')}) query of children and "
-    "parents (for k = 5 order_by is varied only with featuretype None) is compared with the two-level closure of the Parent lists "
-    "(unordered as sets, ordered by start); per feature and level the positional call form (id, level, featuretype, order_by, reverse) "
-    "must equal the keyword form; also children(Feature object), nested iteration (children inside a children loop), two interleaved "
-    "result iterators (zip), db['ghost'] must raise FeatureNotFoundError, stored ids, import must not raise, and "
-    "iter_by_parent_childs(featuretype='gene'). Part 'scale' (1 shard, 3 executions): one 7800-line file (600 genes x 2 mRNAs x 5 "
-    "exons) in top-down, bottom-up and shuffled line order; relation counts per level (7200 / 6000) and children(level=2)/parents of "
-    "three genes are checked. Non-trivial = the graph has a multi-parent node or a path of length >= 2 or a dangling value or the lines "
-    "are not in topological order; every scale execution."
+    "comma list, as a repeated key, or as one comma list that names the first parent a second time; the five ids contain an escaped "
+    "comma (%2C), a colon ('autoincrement:n1'), a quote, an underscore (SQL wildcard) next to a blank, and an escaped per-cent sign. "
+    "For each import (real create_db, :memory:) every (feature, level in {None,1,2}, featuretype in {None,'exon',('exon','mRNA')}, "
+    "order_by in {None,'start',('seqid','start'),['seqid','length','start']}) query of children and parents (for k = 5 order_by is "
+    "varied only with featuretype None) is compared with the two-level closure of the Parent lists (unordered as sets, ordered by "
+    "start; all features share seqid and length, so every non-None order_by must give the order by start); per feature and level the "
+    "positional call form (id, level, featuretype, order_by, reverse) must equal the keyword form; also children(Feature object), "
+    "nested iteration (children inside a children loop), two interleaved result iterators (zip), db['ghost'] must raise "
+    "FeatureNotFoundError, stored ids, import must not raise, and iter_by_parent_childs(featuretype='gene'). Part 'scale' (1 shard, 3 "
+    "executions): one 7800-line file (600 genes x 2 mRNAs x 5 exons) in top-down, bottom-up and shuffled line order; relation counts "
+    "per level (7200 / 6000) and children(level=2)/parents of three genes are checked. Non-trivial = the graph has a multi-parent node "
+    "or a path of length >= 2 or a dangling value or the lines are not in topological order; every scale execution."
 )
-ASSUMPTIONS = ["unique ids; relations are defined two levels deep (deeper descendants are not relatives)"]
+ASSUMPTIONS = [
+    "unique ids; relations are defined two levels deep (deeper descendants are not relatives)",
+    "all features sit on one seqid and have equal length, so every non-None order_by means 'by start'; a parent named twice in one Parent list gives one relation",
+]
 
 TYPES = ("gene", "mRNA", "exon", "exon", "CDS")
 FTS = (None, "exon", ("exon", "mRNA"))
@@ -36,7 +40,7 @@ def kmax(tier):
 def bounds(tier):
     k = kmax(tier)
     return dict(max_features=k, graphs=2 ** (k * (k - 1) // 2), permutations="all k!", dangling="none or on one feature",
-                levels=[None, 1, 2], featuretypes=[None, "exon", ["exon", "mRNA"]], order_by=[None, "start", ["seqid", "start"]])
+                levels=[None, 1, 2], featuretypes=[None, "exon", ["exon", "mRNA"]], order_by=[None, "start", ["seqid", "start"], ["seqid", "length", "start"]])
 
 
 def shards(tier):
